@@ -106,7 +106,7 @@ impl Serialize for Number {
             map.serialize_entry("val", &self.value)?;
             map.serialize_entry("unit", unit.symbol())?;
             map.end()
-        } else if self.value.fract() == 0.0 {
+        } else if self.value.fract() == 0.0 && self.value.abs() < 9.0e15 {
             serializer.serialize_i64(self.value as i64)
         } else {
             serializer.serialize_f64(self.value)
